@@ -593,6 +593,18 @@ def cmp_prim(E, st, frame, b, t, c, args):
         if all(is_const(x) for x in a[3]) and all(is_const(x) for x in bb[3]):
             same = tuple(x[1] for x in a[3]) == tuple(x[1] for x in bb[3])
             return const_int(1 if same == (op == 'Eq') else 0)
+    # equality of a symbolic string (identified by its length term) with a constant
+    if a[0] == 'S' and bb[0] == 'S' and op in ('Eq', 'Ne'):
+        for x, y in ((a, bb), (bb, a)):
+            if y[3] is not None and all(is_const(i) for i in y[3]) and x[3] is None:
+                ln = st.resolve(x[1])
+                if ln != BOT and ln[0] == 'I' and ln[4] is not None and ln[4][0] == 'len':
+                    if not (ln[1] <= len(y[3]) <= ln[2]):
+                        return const_int(0 if op == 'Eq' else 1)
+                    tm = T('streq', ln[4], bytes(i[1] for i in y[3]).hex())
+                    if op == 'Ne':
+                        tm = T('Not', tm)
+                    return E.reg(mk_int(0, 1, 0, tm))
     # fieldless enum equality
     va, vb = enum_variants(E, st, a), enum_variants(E, st, bb)
     if va is not None and vb is not None and op in ('Eq', 'Ne') and len(va) == 1 and len(vb) == 1:
@@ -1931,10 +1943,13 @@ def iter_collect(E, st, frame, b, t, c, args):
     if ty is not None and E.types.is_seq_adt(ty):
         if p is not None:
             el, ln = p
+            lt = T('len', E.site(frame, b, 'col'))
             if 'String' in ty['name']:
-                return ('S', mk_int(ln[1], min(ln[2] * 4, U63)), mk_int(0, 255), None)
+                return ('S', E.reg(mk_int(ln[1], min(ln[2] * 4, U63), 0, lt)), mk_int(0, 255), None)
+            if ln[0] == 'I' and ln[4] is None and ln[1] != ln[2]:
+                ln = E.reg(mk_int(ln[1], ln[2], 0, lt))
             return ('S', ln, el, None)
-        return ('S', mk_int(0, U63), ('T', E.types.seq_elem(ty), None), None)
+        return ('S', E.reg(mk_int(0, U63, 0, T('len', E.site(frame, b, 'col')))), ('T', E.types.seq_elem(ty), None), None)
     return E.expand(('T', dty, E.site(frame, b, 'col')))
 
 
@@ -2006,3 +2021,107 @@ def regex_new(E, st, frame, b, t, c, args):
     if not good:
         parts.append((1, (('T', erty, None),)))
     return ('E', T('e', E.site(frame, b, 'rx')), tuple(parts))
+
+
+# ------------------------------------------------------------------------------------------
+# url 2.x (WHATWG URL): contracts used by jet1090's Source::from_str.
+#  * Url::parse(<literal>) is Ok when the literal is `scheme://` + an optional plain host
+#  * for the special schemes the default port is known and the path starts with "/"
+URL_SPECIAL = {b'ws': 80, b'wss': 443, b'http': 80, b'https': 443, b'ftp': 21}
+
+
+def _val_origin(E, st, v):
+    o = _val_origin0(E, st, v)
+    while o.__class__ is tuple and len(o) == 2 and o[1] == '*':
+        o = o[0]
+    return o
+
+
+def _val_origin0(E, st, v):
+    if v[0] == 'T' and v[2] is not None:
+        return v[2]
+    v = E.expand(v)
+    for _ in range(6):
+        if v[0] == 'R':
+            if v[1] is None:
+                return None
+            v = E.read_lv(st, (v[1], v[2]), None)
+            if v[0] == 'T':
+                return v[2]
+            v = E.expand(v)
+        elif v[0] == 'T':
+            return v[2]
+        else:
+            return None
+    return None
+
+
+def _url_scheme(E, st, uo):
+    if uo is None:
+        return None
+    lt = T('len', ((uo, 'urlscheme'), '*'))
+    for t, r in st.rf.items():
+        if t[0] == 'streq' and t[1] == lt and r[0] == 1:
+            return bytes.fromhex(t[2])
+    return None
+
+
+def url_literal_ok(lit):
+    import re
+    return re.match(r'^[a-zA-Z][a-zA-Z0-9+.-]*://([a-zA-Z0-9.-]+(:[0-9]{1,5})?)?(/[a-zA-Z0-9._~/-]*)?$', lit) is not None
+
+
+@model(['parse'], rself='url::Url', pred=lambda c: c.get('rcrate') == 'url')
+def url_parse(E, st, frame, b, t, c, args):
+    dty = E.dest_ty(frame, t)
+    ty = E.types.get(dty)
+    okty = ty['variants'][0]['fields'][0].get('ty')
+    erty = ty['variants'][1]['fields'][0].get('ty')
+    lit = const_bytes_of(E, st, args[0])
+    parts = [(0, (('T', okty, E.site(frame, b, 'url')),))]
+    good = False
+    if lit is not None:
+        try:
+            good = url_literal_ok(lit.decode('utf8'))
+            E.const_checks.append(('url', lit.decode('utf8'), good, '%s:%s' % (frame.body['file'], t.get('sp'))))
+        except UnicodeDecodeError:
+            good = False
+    if not good:
+        parts.append((1, (('T', erty, None),)))
+    return ('E', T('e', E.site(frame, b, 'url')), tuple(parts))
+
+
+@model(['scheme', 'path'], rself='url::Url', pred=lambda c: c.get('rcrate') == 'url')
+def url_scheme(E, st, frame, b, t, c, args):
+    uo = _val_origin(E, st, args[0])
+    dty = E.dest_ty(frame, t)
+    if uo is None:
+        return ('T', dty, E.site(frame, b, 'x'))
+    return ('T', dty, (uo, 'url' + c['item']))
+
+
+@model(['port_or_known_default'], rself='url::Url', pred=lambda c: c.get('rcrate') == 'url')
+def url_port_default(E, st, frame, b, t, c, args):
+    uo = _val_origin(E, st, args[0])
+    sch = _url_scheme(E, st, uo)
+    site = E.site(frame, b, 'port')
+    some = (1, (E.reg(mk_int(0, 65535, 0, T('o', site))),))
+    if sch in URL_SPECIAL:
+        return ('E', None, (some,))
+    return ('E', T('e', site), ((0, ()), some))
+
+
+@model(['strip_prefix'], pred=lambda c: (c.get('rself') or '') == 'str' and c.get('rcrate') == 'core')
+def str_strip_prefix(E, st, frame, b, t, c, args):
+    dty = E.dest_ty(frame, t)
+    ty = E.types.get(dty)
+    sty = ty['variants'][1]['fields'][0].get('ty')
+    site = E.site(frame, b, 'sp')
+    some = (1, (('T', sty, site),))
+    o = _val_origin(E, st, args[0])
+    pat = const_bytes_of(E, st, args[1]) if len(args) > 1 else None
+    if pat == b'/' and isinstance(o, tuple) and len(o) == 2 and o[1] == 'urlpath':
+        sch = _url_scheme(E, st, o[0])
+        if sch in URL_SPECIAL or sch == b'file':
+            return ('E', None, (some,))       # WHATWG: the path of a special URL starts with "/"
+    return ('E', T('e', site), ((0, ()), some))
